@@ -153,6 +153,8 @@ def inject(prog, r, n_events):
             kind = "assert" if c < 0.85 else "assume"
             test = arg()
             text, args = fmt(tag)
+            if r.random() < 0.15:
+                text, args = tag + r.choice(["left the set {{0, 1}}", "expected {hi, lo} == 0", "{}", "plain", "{0:x}} {"]), None
             body.insert(pos, [kind, "sync", test, text, args])
     return prog
 
@@ -210,6 +212,8 @@ def got_template(text):
 def expected_text(st, env, reg):
     """Python's str.format applied to the statement's format string and the values in their own shapes."""
     fmt, args = (st[2], st[3]) if st[0] == "print" else (st[3], st[4])
+    if args is None:
+        return fmt            # a plain string message of Assert / Assume is not a format string
     exps = []
     for a in args:
         if a[0] == "pyint":
@@ -393,7 +397,7 @@ def check_program(job):
                 fmt_text = st[2] if st[0] == "print" else st[3]
                 t = tag_of(fmt_text)
                 if t is None:
-                    t = next((tag_of(a_[1]) for a_ in (st[3] if st[0] == "print" else st[4]) if a_[0] == "pyint" and isinstance(a_[1], str) and tag_of(a_[1]) is not None), None)
+                    t = next((tag_of(a_[1]) for a_ in ((st[3] if st[0] == "print" else st[4]) or []) if a_[0] == "pyint" and isinstance(a_[1], str) and tag_of(a_[1]) is not None), None)
                 seen.add(t)
                 if st[0] != "print":
                     tv, _ = refsem.ref_eval(st[2], env)
@@ -470,7 +474,8 @@ def check_program(job):
     # translator validation: the whole pipeline on concrete random states, text against text
     rr = random.Random(job.get("vseed", 0))
     mism = []
-    for k in range(job.get("nconc", 3)):
+    # (when the symbolic stage was inconclusive, more concrete states are tried: they can only FIND a reproducing difference)
+    for k in range(max(job.get("nconc", 3), 40 if any(x["status"] == INCONCLUSIVE for x in out) else 0)):
         e0 = {}
         for n, (w, s, init, kind) in prog["signals"].items():
             if kind in ("in", "sync"):
@@ -1056,6 +1061,8 @@ def corner_programs():
                         ["assert", "sync", sg("i0", 3), "<1>{2:{0:02d}b} {1!r:>4}", [["pyint", 7], ["pyint", "q"], sg("i0", 3)]],
                         ["print", "sync", "{}-{}-{}-{}", [["pyint", ""], ["pyint", ""], sg("i0", 3), ["pyint", "@<2>@"]], {"sep": "-", "end": ";\n"}],
                         ["print", "sync", "{} {} {}", [["pyint", ""], sg("i1", 4, True), ["pyint", "@<3>@"]], {"sep": " ", "end": ""}],
+                        ["print", "sync", "<4>[{:4c}][{:<3c}][{:2c}]", [sg("t0", 8), sg("t2", 20), sg("t0", 8)]],
+                        ["assume", "sync", ["index", sg("i0", 3), 1], "<5>i0 left the set {{0, 1}} of {lo, hi}", None],
                         ["assign", "sync", sg("r0", 3), sg("i0", 3)]]})
     return P
 
